@@ -58,6 +58,7 @@ type cellXML struct {
 
 type inlineStrXML struct {
 	T string `xml:"t"` // Text content
+	R []rXML `xml:"r"` // Rich text runs
 }
 
 type mergeCellsXML struct {
